@@ -474,3 +474,75 @@ def writes_only_through(relpath, qualname, allowed_attrs, private_attrs, prop, c
     return dict(name=name, status="discharged", backend="frame(ast)", time_s=time.time() - t0, property_level=False,
                 reason=f"{len(stores)} attribute stores, all through contracted setters: {sorted({s for _, s in stores})}",
                 function=fi.describe())
+
+
+def fields_encapsulated(relpath, cls, private_attrs, writer_methods, prop, clause, package="abtem"):
+    """Obligation (the class invariant is owned by the class): (1) inside `cls` only the methods in `writer_methods`
+    (the ones under contract, inlined into them, or covered by the stated bounded rows) store or delete a private field;
+    (2) no other class in the package derives from `cls`; (3) nowhere else in the package is a private field of that name
+    stored or deleted through anything but a plain `self` (which, by (2), is not an instance of `cls`), and
+    (4) `setattr` / `__setattr__` / `__dict__` are not applied to anything but `self` outside `cls` and not at all inside.
+    Conservative and syntactic: a failure is a candidate only."""
+    import glob
+    import os
+    t0 = time.time()
+    name = f"{prop}/{cls}/{clause}"
+    root = extract.REPO
+    problems, seen_writers, nfiles = [], set(), 0
+    for path in sorted(glob.glob(os.path.join(root, package, "**", "*.py"), recursive=True)):
+        rel = os.path.relpath(path, root)
+        try:
+            tree = ast.parse(open(path, encoding="utf-8").read())
+        except (SyntaxError, OSError) as e:
+            return dict(name=name, status="undecided", reason=f"{rel}: {e}", property_level=False, backend="frame")
+        nfiles += 1
+        own = None
+        for c in ast.walk(tree):
+            if isinstance(c, ast.ClassDef):
+                if rel == relpath and c.name == cls:
+                    own = c
+                elif any(ast.unparse(b).split(".")[-1] == cls for b in c.bases):
+                    problems.append((rel, c.lineno, f"class `{c.name}` derives from `{cls}`"))
+        own_nodes = set()
+        if own is not None:
+            for m in own.body:
+                if isinstance(m, (ast.FunctionDef, ast.AsyncFunctionDef)):
+                    for n in ast.walk(m):
+                        own_nodes.add(id(n))
+                        if isinstance(n, ast.Attribute) and n.attr in private_attrs and isinstance(n.ctx, (ast.Store, ast.Del)):
+                            seen_writers.add(m.name)
+                            if m.name not in writer_methods:
+                                problems.append((rel, n.lineno, f"`{cls}.{m.name}` stores `{ast.unparse(n)}` but is not a declared writer"))
+                        if isinstance(n, ast.Attribute) and n.attr == "__dict__":
+                            problems.append((rel, n.lineno, f"`{cls}.{m.name}` uses `__dict__`"))
+                        if isinstance(n, ast.Call) and ast.unparse(n.func).split(".")[-1] in ("setattr", "__setattr__", "delattr", "__delattr__"):
+                            problems.append((rel, n.lineno, f"`{cls}.{m.name}` calls `{ast.unparse(n.func)}`"))
+        for n in ast.walk(tree):
+            if id(n) in own_nodes:
+                continue
+            if isinstance(n, ast.Attribute) and n.attr in private_attrs and isinstance(n.ctx, (ast.Store, ast.Del)) \
+                    and not (isinstance(n.value, ast.Name) and n.value.id == "self"):
+                problems.append((rel, n.lineno, f"store to `{ast.unparse(n)}` from outside `{cls}`"))
+            if isinstance(n, ast.Call) and ast.unparse(n.func).split(".")[-1] in ("setattr", "__setattr__") and n.args:
+                if isinstance(n.func, ast.Attribute) and n.func.attr == "__setattr__" and len(n.args) == 2:
+                    tgt, key = n.func.value, n.args[0]  # recv.__setattr__(key, value): the receiver is written
+                else:
+                    tgt, key = n.args[0], (n.args[1] if len(n.args) > 1 else None)  # setattr(obj, key, value) / object.__setattr__(obj, key, value)
+                const_ok = isinstance(key, ast.Constant) and key.value not in private_attrs
+                self_ok = (isinstance(tgt, ast.Name) and tgt.id == "self") or ast.unparse(tgt) == "super()"
+                if not const_ok and not self_ok:
+                    problems.append((rel, n.lineno, f"`{ast.unparse(n)[:80]}` may write a private field of a `{cls}`"))
+    if not seen_writers and not problems:
+        problems.append((relpath, 0, f"no method of `{cls}` stores a private field (vacuous: class or fields renamed?)"))
+    fn = None
+    try:
+        fn = extract.load_module(relpath).function(f"{cls}.__init__").describe()
+    except Exception:
+        pass
+    if problems:
+        why = "; ".join(f"{f}:{ln}: {msg}" for f, ln, msg in problems[:6])
+        return dict(name=name, status="refuted", backend="frame(ast)", time_s=time.time() - t0, reason=why, property_level=False,
+                    model=why, **({"function": fn} if fn else {}))
+    return dict(name=name, status="discharged", backend="frame(ast)", time_s=time.time() - t0, property_level=False,
+                reason=f"{nfiles} files of `{package}` scanned; writers inside `{cls}`: {sorted(seen_writers)}; no subclass, no foreign store",
+                **({"function": fn} if fn else {}))
